@@ -879,6 +879,13 @@ def step (st : State) (line : String) : State × String :=
     else if t.startsWith "sh." || t.startsWith "cs." || t.startsWith "cl." then stepShard st toks
     else if t.startsWith "sel." then stepSelect st toks
     else if t.startsWith "p." then stepReplTracked st toks
+    else if t.startsWith "nc." then
+      -- the client's notifications manager: every change committed after the subscription, once, in order
+      let script := ((DbProto.kvOf toks "script").getD "").splitOn ","
+      let (_, _, keys) := script.foldl (fun (acc : Bool × Nat × List String) tok =>
+        if tok == "w" then (acc.1, acc.2.1 + 1, if acc.1 then acc.2.2 ++ ["k" ++ toString acc.2.1] else acc.2.2)
+        else if tok == "sub" then (true, acc.2.1, acc.2.2) else acc) (false, 0, [])
+      (st, "got=" ++ String.intercalate "," keys)
     else if t.startsWith "k." then (st, "ok")   -- coordinator scripts: nothing to compare, the oracle works on the RPC log
     else if t.startsWith "c." then stepCluster st toks
     else if t.startsWith "s." then stepSess st toks
